@@ -25,7 +25,7 @@ EXPLANATION = (
     "exhaustive fault injection in child processes under ASan+LSan: allocation failure at every operator new, stream failure at every "
     "byte, truncation at every length of representative documents in all four archives, library-detected mid-save errors; leak freedom; "
     "destructibility after failure. TERMINATE / HANG outcomes explained by the listed known findings are reported as KNOWN-FINDING "
-    "(none is open: F17, F18, I37, I38, I39 were found by this check and repaired in /repo); any other TERMINATE, HANG, LEAK or CRASH "
+    "(none is open: F17, F18, I37, I38, I39, I41 were found by this machinery and repaired in /repo); any other TERMINATE, HANG, LEAK or CRASH "
     "is a violation.")
 TRUSTED_BASE = [
     "Coq 8.16.1 kernel incl. vm_compute; axioms: none (every T_C20_* prints 'Closed under the global context')",
@@ -35,10 +35,10 @@ TRUSTED_BASE = [
     "harness/drv_fault.cpp (global operator new/delete replacement, faulty streambufs, fork per case, set_terminate handler that prints the stack, -fno-inline so that destructor frames stay visible), AddressSanitizer/LeakSanitizer/UBSan of gcc; ml/inv_driver.ml, ml/glue.ml; props/C20.py, props/inv_common.py",
 ]
 ASSUMPTIONS = [
-    "the heap is not modelled: allocation-failure and leak results are observations over the scenario catalogue (35 scenarios), exhaustive in the fault position but not in the document",
+    "the heap is not modelled: allocation-failure and leak results are observations over the scenario catalogue (51 scenarios, among them byte containers as last member / root / elements and UTF-16 / UTF-32 encoded load streams whose characters straddle the reader's chunk boundaries), exhaustive in the fault position but not in the document; for save scenarios an output stream that refuses or throws at a byte the fault-free save writes must make SaveObject raise (a normal return is a silently truncated document)",
     "a non-noexcept callee of a destructor is treated as possibly throwing on syntactic grounds; a destructor whose callees are all noexcept is taken not to throw",
     "the stream reader of MsgPack and the stream writer of CSV are not modelled; their scopes are the same classes and are covered by the fault enumeration",
-    "alignment checking of UBSan is off in the fault driver while F35 (misaligned loads in the MsgPack readers) is open",
+    "alignment checking of UBSan is off in the fault driver (F35, misaligned loads in the MsgPack readers, was repaired by ebf776b; the other drivers run with it on)",
 ]
 
 INVENTORY = IC.maybe_regenerate()
